@@ -496,6 +496,8 @@ class Interp:
             ar = {"Add": x + y, "Sub": x - y, "Mul": x * y, "BitAnd": x & y, "BitOr": x | y, "BitXor": x ^ y}.get(base)
             if ar is not None:
                 return ("tuple", [Int(ar), Int(0)]) if wo else Int(ar)
+            if base in ("Div", "Rem") and y != 0 and x >= 0 and y > 0:
+                return Int(x // y if base == "Div" else x % y)
             return TOP
         if base in ("Eq", "Ne", "Lt", "Le", "Gt", "Ge"):
             o = self.compare(a, b, site)
